@@ -853,14 +853,28 @@ pub struct PeerW {
     pub ts_on: bool,
     pub ts_echo: std::cell::Cell<u32>,
     pub ts_count: std::cell::Cell<u32>,
+    /// acknowledgment number (relative) and window field of the last segment without SYN the socket emitted
+    pub last_adv: std::cell::Cell<(i64, i64)>,
+    /// the highest right edge any emitted segment (the SYN-ACK included) has advertised, window fields read as octets
+    pub max_edge: std::cell::Cell<i64>,
 }
 
 impl PeerW {
+    fn note_adv(&self, outs: &[Value]) {
+        for o in outs {
+            if o["rst"].as_bool() == Some(false) && o["ha"].as_bool() == Some(true) {
+                self.max_edge.set(self.max_edge.get().max(o["ack"].as_i64().unwrap_or(0) + o["win"].as_i64().unwrap_or(0)));
+            }
+            if o["syn"].as_bool() == Some(false) && o["rst"].as_bool() == Some(false) && o["ha"].as_bool() == Some(true) {
+                self.last_adv.set((o["ack"].as_i64().unwrap_or(-1), o["win"].as_i64().unwrap_or(-1)));
+            }
+        }
+    }
     pub fn new(cfg: EpCfg, peer_iss: u32) -> PeerW {
         let mut num = Numbering::default();
         num.iss[0] = Some(peer_iss);
         let ts_on = cfg.ts;
-        PeerW { ep: Ep::new(1, cfg, Instant::from_millis(0)), num, now: 0, peer_iss, peer_fin: -1, ts_on, ts_echo: std::cell::Cell::new(0), ts_count: std::cell::Cell::new(0) }
+        PeerW { ep: Ep::new(1, cfg, Instant::from_millis(0)), num, now: 0, peer_iss, peer_fin: -1, ts_on, ts_echo: std::cell::Cell::new(0), ts_count: std::cell::Cell::new(0), last_adv: std::cell::Cell::new((-1, -1)), max_edge: std::cell::Cell::new(0) }
     }
     /// Crafts a segment from relative numbers: seq relative to the peer's ISN, ack relative to the socket's ISN
     /// (absolute 0-based if the socket's ISN is not yet known).
@@ -887,6 +901,7 @@ impl PeerW {
         match self.ep.poll(self.now, vec![frame]) {
             Ok(out) => {
                 let outs: Vec<Value> = out.iter().map(|o| self.num.proj_frame(1, o)).collect();
+                self.note_adv(&outs);
                 for o in &out {
                     if let Some(IpPkt { l4: L4::Tcp(seg), .. }) = parse_ip(o) {
                         if let Some((v, _)) = seg.ts {
@@ -910,6 +925,7 @@ impl PeerW {
         match self.ep.poll(self.now, vec![]) {
             Ok(out) => {
                 let outs: Vec<Value> = out.iter().map(|o| self.num.proj_frame(1, o)).collect();
+                self.note_adv(&outs);
                 let p = self.ep.post(self.now);
                 t.ev(json!({"ev":"egress","ep":1,"now":self.now,"deadline":dl,"out":outs,"before":before,"post":p,"x":extra}));
                 true
@@ -1107,6 +1123,10 @@ pub fn peer_random(args: &Args) {
         let peer_total = if rng.chance(15) { (rx as i64 + rng.range(0, 2) as i64 - 1).max(0) } else { rng.range(0, (rx as u64 * 3).min(300_000)) as i64 };
         let peer_mss_opt: Option<u16> = *rng.pick(&[None, Some(0u16), Some(1), Some(47), Some(48), Some(536), Some(1460), Some(9000)]);
         let peer_ws: Option<u8> = *rng.pick(&[None, Some(0u8), Some(2), Some(7), Some(14)]);
+        // a peer that offers no window scaling to a listener whose buffer would need it reads every window field as
+        // octets: it first probes just beyond the edge it can read (see below), which needs a stream that long
+        let unscaled_probe = listener && peer_ws.is_none() && rx >= 65536;
+        let peer_total = if unscaled_probe { peer_total.max(rx as i64) } else { peer_total };
         // (no burst limit on the device here: the interface then accepts more than the window it lets out, and the rules that
         // judge a hostile peer's segments against the advertised window would have to be weakened; the pair world has it)
         t.ev(json!({"ev":"reset","run":run,"world":"tcp_peer","src":"random","seed":seed0,"cfg":[{"rx":65535,"tx":65535,"mtu":mtu,"cc":0,"ad":-1,"nagle":false,"ts":false,"isn":peer_iss as i64,"scripted":true},
@@ -1161,7 +1181,51 @@ pub fn peer_random(args: &Args) {
             if !w.inject(f, &mut t, json!({})) {
                 continue;
             }
+            if unscaled_probe && w.ep.state() == "ESTABLISHED" {
+                // one octet in order draws an acknowledgment with a window field; 100 octets just beyond the edge that field
+                // gives when read as octets (inside the buffer, so a socket that shifts it by a scale nobody negotiated would
+                // take them); then the stream in order up to there, never beyond what the latest advertisement allows
+                let f = w.craft(1, Some(1), 1, false, false, false, 1000, None, None);
+                w.now += 1;
+                let mut ok = w.inject(f, &mut t, json!({"probe": "unscaled"}));
+                w.now += 20;
+                ok = ok && w.timer_poll(&mut t, json!({}));
+                let (a0, w0) = w.last_adv.get();
+                // (beyond every edge advertised so far: the SYN-ACK's unscaled window counts)
+                let beyond = w.max_edge.get().max(a0 + w0) + 50;
+                if ok && a0 >= 1 && w0 > 0 && beyond + 100 <= rx as i64 && beyond + 100 <= peer_total + 1 {
+                    let f = w.craft(beyond, Some(1), 100, false, false, false, 1000, None, None);
+                    w.now += 1;
+                    ok = w.inject(f, &mut t, json!({"probe": "unscaled"}));
+                    let mut nxt: i64 = 2;
+                    let mut guard = 0;
+                    // (the 100 octets themselves are not sent again: they were only ever sent beyond the window)
+                    while ok && nxt < beyond && guard < 200 {
+                        guard += 1;
+                        let (a, wn) = w.last_adv.get();
+                        let len = 1400i64.min(beyond - nxt).min(a + wn - nxt);
+                        if len <= 0 {
+                            break;
+                        }
+                        let f = w.craft(nxt, Some(1), len as usize, false, false, false, 1000, None, None);
+                        w.now += 1;
+                        ok = w.inject(f, &mut t, json!({"probe": "unscaled"}));
+                        w.now += 12;
+                        ok = ok && w.timer_poll(&mut t, json!({}));
+                        nxt += len;
+                    }
+                    peer_nxt = peer_nxt.max(nxt);
+                }
+                if !ok {
+                    continue;
+                }
+            }
         } else {
+            // (now and then the socket has listened before in its life: nothing of that may show in the active open)
+            if rng.chance(30) {
+                w.api_listen(&mut t);
+                w.api_close(&mut t);
+            }
             w.api_connect(&mut t);
             // now and then a SYN-ACK / reset that arrives before the SYN has left (ingress runs before egress): one that does
             // not acknowledge ISS + 1 opens nothing
@@ -1182,8 +1246,31 @@ pub fn peer_random(args: &Args) {
             if !w.timer_poll(&mut t, json!({})) {
                 continue;
             }
+            // a simultaneous open now and then: the peer's bare SYN crosses ours (SYN-SENT -> SYN-RECEIVED); then either a
+            // reset at RCV.NXT (an active opener goes to CLOSED: it is no listener) or the acknowledgment that completes it
+            let mut simultaneous = false;
+            if rng.chance(15) {
+                let f = w.craft(0, None, 0, true, false, false, rng.range(0, 65535) as u16, peer_mss_opt, peer_ws);
+                w.now += 1;
+                if !w.inject(f, &mut t, json!({"simultaneous": true})) {
+                    continue;
+                }
+                if w.ep.state() == "SYN-RECEIVED" {
+                    simultaneous = true;
+                    w.now += 1;
+                    if rng.chance(50) {
+                        let f = w.craft(1, None, 0, false, false, true, 0, None, None);
+                        let _ = w.inject(f, &mut t, json!({"simultaneous": true}));
+                        continue;
+                    }
+                    let f = w.craft(1, Some(1), 0, false, false, false, rng.range(0, 65535) as u16, None, None);
+                    if !w.inject(f, &mut t, json!({"simultaneous": true})) || w.ep.state() != "ESTABLISHED" {
+                        continue;
+                    }
+                }
+            }
             // hostile segments while the socket is in SYN-SENT: resets / SYN-ACKs / ACKs around the expected ACK number
-            if rng.chance(50) {
+            if !simultaneous && rng.chance(50) {
                 for _ in 0..rng.range(1, 3) {
                     let ack = *rng.pick(&[None, Some(0i64), Some(2), Some(2), Some(3), Some(1000), Some(-5), Some(1)]);
                     let kind = rng.below(4);
@@ -1193,15 +1280,25 @@ pub fn peer_random(args: &Args) {
                         break;
                     }
                 }
+                if w.ep.state() == "SYN-RECEIVED" {
+                    // a simultaneous open (the peer's bare SYN crossed ours); a reset at RCV.NXT ends it: an active opener
+                    // goes to CLOSED, it is no listener
+                    let f = w.craft(1, None, 0, false, false, true, 0, None, None);
+                    w.now += 1;
+                    let _ = w.inject(f, &mut t, json!({}));
+                    continue;
+                }
                 if w.ep.state() != "SYN-SENT" {
                     continue;
                 }
             }
-            let syn_data = if rng.chance(20) { rng.range(1, 24) as usize } else { 0 };
-            let f = w.craft(0, Some(1), syn_data, true, false, false, rng.range(0, 65535) as u16, peer_mss_opt, peer_ws);
-            w.now += 1;
-            if !w.inject(f, &mut t, json!({})) {
-                continue;
+            if !simultaneous {
+                let syn_data = if rng.chance(20) { rng.range(1, 24) as usize } else { 0 };
+                let f = w.craft(0, Some(1), syn_data, true, false, false, rng.range(0, 65535) as u16, peer_mss_opt, peer_ws);
+                w.now += 1;
+                if !w.inject(f, &mut t, json!({})) {
+                    continue;
+                }
             }
         }
         let mut alive = true;
